@@ -199,7 +199,11 @@ def _merge_and_report(prop, tier, seed, mod, results, wall, replay=None):
     replay_paths = []
     if not replay:
         rdir = os.path.join(VERIF_DIR, "replays", prop)
-        for (clause, mech), v in unlisted.items():
+        for k_, ((clause, mech), v) in enumerate(unlisted.items()):
+            if k_ >= 25:
+                lines.append(f"  ... and {len(unlisted) - 25} more unlisted mechanism(s), see "
+                             f"evidence/{prop}.json")
+                break
             os.makedirs(rdir, exist_ok=True)
             body = json.dumps(v, sort_keys=True, indent=1)
             h = hashlib.sha1(body.encode()).hexdigest()[:12]
